@@ -717,6 +717,7 @@ func main() {
 	outp := flag.String("out", "Sites_gen.v", "Coq output")
 	rep := flag.String("report", "", "JSON report")
 	scratchOut := flag.String("scratch", "", "Coq output of the scratch pass (Scratch_gen.v)")
+	errflowOut := flag.String("errflow", "", "Coq output of the error-flow pass (ErrFlow_gen.v)")
 	flag.Parse()
 	fset := token.NewFileSet()
 	var dirs []string
@@ -876,13 +877,23 @@ func main() {
 			os.Exit(2)
 		}
 	}
+	var escopes []errScope
+	if *errflowOut != "" {
+		var eerrs []string
+		escopes, eerrs = errflowPass(*repo)
+		parseErrors = append(parseErrors, eerrs...)
+		if err := writeErrflow(*errflowOut, escopes); err != nil {
+			fmt.Fprintln(os.Stderr, err)
+			os.Exit(2)
+		}
+	}
 	if *rep != "" {
 		n := 0
 		for _, s := range sites {
 			n += len(s.Acc)
 		}
 		b, _ := json.MarshalIndent(map[string]interface{}{"ok": len(parseErrors) == 0 && len(sites) > 0, "closures": len(sites), "accesses": n,
-			"parse_errors": parseErrors, "sites": sites, "scratch_methods": len(scr), "clone_fields": cfs}, "", " ")
+			"parse_errors": parseErrors, "sites": sites, "scratch_methods": len(scr), "clone_fields": cfs, "errscopes": escopes}, "", " ")
 		os.WriteFile(*rep, b, 0644)
 	}
 	if len(parseErrors) > 0 {
